@@ -28,6 +28,7 @@ def main():
         sid = os.path.basename(os.path.dirname(p))
         meta = json.load(open(os.path.join(os.path.dirname(p), "meta.json")))
         items.append(("seeded/" + sid, meta["property"], p))
+    all_names = {it[0] for it in items}
     if want:
         items = [it for it in items if any(it[0].startswith(w) or it[1] == w for w in want)]
     results = []
@@ -44,7 +45,8 @@ def main():
         if ap.returncode == 0:
             tb = sh("QENTEM_REPO=%s VERIF_BASELINE_DIR=/tmp/selftest_bl VERIF_CTEST_TIMEOUT=120 %s/tools/baseline_off.sh" % (WT, HERE))
             rec["repo_tests_pass"] = "100% tests passed" in tb.stdout
-            env = dict(os.environ, QENTEM_REPO=WT, VERIF_SEED=os.environ.get("VERIF_SEED", "1"))
+            env = dict(os.environ, QENTEM_REPO=WT, VERIF_SEED=os.environ.get("VERIF_SEED", "1"),
+                       VERIF_EVIDENCE_DIR=os.path.join(HERE, "build", "evidence-selftest"))
             ck = subprocess.run([os.path.join(HERE, "check"), prop, "--tier", "quick"], capture_output=True, text=True, env=env, cwd=HERE)
             rec["check_exit"] = ck.returncode
             keys = re.findall(r"^\s+key=(\S+)", ck.stdout, re.M)
@@ -56,11 +58,10 @@ def main():
         print("%-38s %-4s tests_pass=%-5s detected=%-5s exit=%s  %s" % (name, prop, rec.get("repo_tests_pass"), rec.get("detected"), rec.get("check_exit"), ",".join(rec.get("violation_keys", []))[:110]), flush=True)
         sh("git -C /repo worktree remove --force %s" % WT)
         sh("rm -rf %s" % WT)
-    # the evidence files were rewritten by runs against mutated trees: mark them stale by removing them
     out = os.path.join(HERE, "selftest_results.json")
     old = []
     if os.path.exists(out) and want:
-        old = [r for r in json.load(open(out)) if r["name"] not in {x["name"] for x in results}]
+        old = [r for r in json.load(open(out)) if r["name"] not in {x["name"] for x in results} and r["name"] in all_names]
     json.dump(old + results, open(out, "w"), indent=1)
     return 0
 
